@@ -91,7 +91,7 @@ def models(ctx):
         ("B as the code is (safety that must survive)", "BSpec", B_SAFE, dict(Bc, AsyncInstall=True, ServesExpired=True), None, 6),
         ("B AsyncInstall", "BSpec", B_DOC, dict(B, AsyncInstall=True), "BServedFromCache", 4),
         ("B ServesExpired", "BSpec", B_DOC, dict(B, ServesExpired=True), "BExpiredNeverPresented", 4),
-        ("B strictmatch=false", "BSpec", B_SAFE + B_DOC, dict(B, Strict=False), None, 6),
+        ("B strictmatch=false", "BSpec", B_SAFE + B_DOC, dict(B, Strict=False, MaxHs=ctx.pick(1, 2)), None, 6),
         ("C documented design", "CSpec", C_INV, C, None, 2),
         ("C LookupFailDisables", "CSpec", C_INV, dict(C, LookupFailDisables=True), "CTokenKept", 2),
     ]
@@ -357,9 +357,17 @@ def run(ctx):
     scaled = scaled_sources(ctx)
     if scaled is None:
         return
+    # the generators start at once for the deviations this tree is expected to show; they run again if the probe differs
+    guess = {k: True for k in ("ReadErrorDropsEntry", "FieldlessIgnored", "LookupFailDisables", "ServesExpired")}
+    early = []
+    for fn in (gen_a, gen_b, gen_c):
+        early.append(Bg(fn, ctx, guess))
+        time.sleep(0.2)
     mjobs = models(ctx)
     pr = probe_and_selftest(ctx, scaled)
     if pr is None:
+        for b in early:
+            b.get()
         judge_models(ctx, mjobs)
         return
     dev = {k: bool(pr[k]) for k in ("ReadErrorDropsEntry", "FieldlessIgnored", "LookupFailDisables", "ServesExpired")}
@@ -372,24 +380,26 @@ def run(ctx):
     if pr.get("ShortTTLSpin"):
         ctx.log("LEAD (ShortTTLSpin): a certificate whose life time is not longer than the refresh option (floor: one hour) makes Issue arm its timer with a negative duration: the re-issue fires at once, the new certificate does the same - %s issue requests in %s ms" % (pr.get("ShortTTLSpinRequests"), pr.get("ShortTTLSpinWindowMs")))
 
-    ga, gb, gc = Bg(gen_a, ctx, dev), None, None
-    time.sleep(0.2)
-    gb = Bg(gen_b, ctx, dev)
-    time.sleep(0.2)
-    gc = Bg(gen_c, ctx, dev)
-    ha, hb, hc = ga.get(), gb.get(), gc.get()
+    ha, hb, hc = [b.get() for b in early]
+    if dev != guess:
+        ga = Bg(gen_a, ctx, dev)
+        time.sleep(0.2)
+        gb = Bg(gen_b, ctx, dev)
+        time.sleep(0.2)
+        gc = Bg(gen_c, ctx, dev)
+        ha, hb, hc = ga.get(), gb.get(), gc.get()
     if ha is None or hb is None or hc is None:
         judge_models(ctx, mjobs)
         return
     rnd = random.Random(ctx.seed)
-    na = ctx.pick(260, 100000)
+    na = ctx.pick(220, 100000)
     if len(ha) > na:
         long_ = [h for h in ha if len(h["a"]) > 3]
         short = [h for h in ha if len(h["a"]) <= 3]
         rnd.shuffle(short)
         ha = long_ + short[:max(0, na - len(long_))]
     hb_all = len(hb)
-    hb = pick_b(ctx, hb, ctx.pick(400, 6000))
+    hb = pick_b(ctx, hb, ctx.pick(330, 6000))
     ctx.log("histories: A %d, B %d of %d (%d with a re-issue round), C %d" % (len(ha), len(hb), hb_all, sum(1 for h in hb if any(e["op"] == "round" for e in h["b"])), len(hc)))
     if len(ha) < 50 or len(hb) < 50 or len(hc) < 10:
         ctx.inconclusive("generators produced too few histories: A %d, B %d, C %d" % (len(ha), len(hb), len(hc)))
@@ -403,7 +413,7 @@ def run(ctx):
     vf.write_ndjson(fc, hc)
     trace = os.path.join(ctx.tmp, "x07.trace")
     g = go(ctx, {"VERIF_X07_A": fa, "VERIF_X07_B": fb, "VERIF_X07_C": fc, "VERIF_X07_TRACE_OUT": trace,
-                 "VERIF_X07_SEGMENTS": ctx.pick(60, 400), "VERIF_X07_CLIENTS": 6, "VERIF_X07_PER_CLIENT": 3},
+                 "VERIF_X07_SEGMENTS": ctx.pick(50, 400), "VERIF_X07_CLIENTS": 6, "VERIF_X07_PER_CLIENT": 3},
            scaled, "X07 replay + recording", ctx.pick(400, 1500))
     ok_models = judge_models(ctx, mjobs)
     if g is None:
@@ -447,7 +457,7 @@ def run(ctx):
         # cross-check of the reduction in VaultCerts_Trace!TSpec: every silent step explicit, on a part
         small = os.path.join(ctx.tmp, "x07.trace.small")
         head_segments(trace, small, ctx.pick(1, 3))
-        bg_eager = Bg(validate, ctx, small, ctx.pick(40, 240), eager=True)
+        bg_eager = Bg(validate, ctx, small, ctx.pick(20, 240), eager=True)
         time.sleep(0.2)
         v = validate(ctx, trace, ctx.pick(300, 1200))
         nev = sum(1 for _ in open(trace))
